@@ -6,6 +6,7 @@ import (
 	"strings"
 
 	bexpr "github.com/hashicorp/go-bexpr"
+	"github.com/hashicorp/go-bexpr/grammar"
 )
 
 // Families added after the eleventh round of seeded changes ("a library call that is almost the right one").
@@ -190,4 +191,278 @@ func filterKeptRows(f *bexpr.Filter, data interface{}) (out string) {
 		return "kept-elements-not-a-subsequence"
 	}
 	return "n=" + fmt.Sprint(rv.Len()) + " pos:" + strings.Join(pos, ",")
+}
+
+// ---------- Families added after the twelfth round ("routine upkeep": regressions of earlier repairs, modernisation, simplification, error paths) ----------
+
+// C08: arrays whose rows are zero in every visible field, hidden fields unset or set
+func c08ZeroArrays(r *Run) {
+	blank := [3]HidRow{}
+	filled := [3]HidRow{{Meta: 1}, {origin: "x"}, {Meta: []int{1}, origin: map[string]int{}}}
+	for _, e := range []string{"Port == 0", `Service == "web"`, "Service is empty", "Port != 0"} {
+		flt, err := bexpr.CreateFilter(e)
+		if err != nil {
+			continue
+		}
+		for _, pair := range [][2]interface{}{{blank, filled}, {blank[:], filled[:]}, {&blank, &filled}, {map[string]HidRow{"a": blank[0]}, map[string]HidRow{"a": filled[0]}}} {
+			var a, b string
+			if _, isMap := pair[0].(map[string]HidRow); isMap {
+				a, b = filterKept(flt, pair[0]), filterKept(flt, pair[1])
+			} else {
+				a, b = filterKeptRows(flt, pair[0]), filterKeptRows(flt, pair[1])
+			}
+			r.Evaluations += 2
+			r.Seen(fmt.Sprintf("zero-arrays|%s|%T|%s", e, pair[0], a))
+			if a != b {
+				r.Violate("hidden-field-observable", fmt.Sprintf("zero-arrays|%s|%T", e, pair[0]), map[string]interface{}{"expression": e, "datum": describe(pair[0]), "datum_b": "the same rows with hidden fields set"}, "Filter keeps "+a+" with the hidden fields unset and "+b+" with them set")
+			}
+		}
+	}
+}
+
+// C11: one grammar option value serves many parses, and the last budget among the options is the budget
+func c11ReusedOptionAndLastBudget(r *Run) {
+	inputs := []string{"a == 1", "a == 1 and b == 2 or not c == 3", "any xs as x { x == 1 and x != 2 }", "((((a == 1))))", "a == \"\\q\" and b == 1", "a =="}
+	for _, s := range inputs {
+		_, err0, n := grammar.VerifParse("", []byte(s))
+		if n < 4 {
+			continue
+		}
+		for _, budget := range []uint64{uint64(n) / 2, uint64(n) - 1, 1} {
+			opt := grammar.MaxExpressions(budget)
+			for call := 1; call <= 3; call++ {
+				_, err, steps := grammar.VerifParse("", []byte(s), opt)
+				r.Evaluations++
+				r.Seen(fmt.Sprintf("reused-option|%s|%d|%d", s, budget, call))
+				if err == nil || !strings.Contains(err.Error(), "max number of expresssions parsed") {
+					r.Violate("budget-not-enforced", fmt.Sprintf("reused-option|%s|%d", s, budget), map[string]interface{}{"input": s, "budget": budget, "N": n, "call": call}, fmt.Sprintf("parse %d with one MaxExpressions(%d) option value (N = %d) did not fail with the max-expressions error: %v", call, budget, n, err))
+					break
+				}
+				if uint64(steps) > budget+1 {
+					r.Violate("budget-overrun", fmt.Sprintf("reused-option|%s|%d", s, budget), map[string]interface{}{"input": s, "budget": budget, "N": n, "call": call}, fmt.Sprintf("parse %d executed %d steps under a budget of %d", call, steps, budget))
+					break
+				}
+			}
+		}
+		// the last WithMaxExpressions of the list is the budget: 0 after m lifts the limit, m after 0 sets it
+		m := uint64(n) / 2
+		_, errLift := bexpr.CreateEvaluator(s, bexpr.WithMaxExpressions(m), bexpr.WithMaxExpressions(0))
+		_, errSet := bexpr.CreateEvaluator(s, bexpr.WithMaxExpressions(0), bexpr.WithMaxExpressions(m))
+		_, errBig := bexpr.CreateEvaluator(s, bexpr.WithMaxExpressions(m), bexpr.WithTagName("x"), bexpr.WithMaxExpressions(uint64(n)+5))
+		r.Evaluations += 3
+		same := func(a, b error) bool { return (a == nil) == (b == nil) && (a == nil || a.Error() == b.Error()) }
+		if !same(errLift, err0) {
+			r.Violate("threshold", "last-budget|lift|"+s, map[string]interface{}{"input": s, "budgets": fmt.Sprintf("[%d, 0]", m), "N": n}, fmt.Sprintf("[WithMaxExpressions(%d), WithMaxExpressions(0)] should give the unlimited result (%v), got %v", m, err0, errLift))
+		}
+		if !same(errBig, err0) {
+			r.Violate("threshold", "last-budget|raise|"+s, map[string]interface{}{"input": s, "budgets": fmt.Sprintf("[%d, %d]", m, n+5), "N": n}, fmt.Sprintf("a sufficient budget given after an insufficient one should give the unlimited result (%v), got %v", err0, errBig))
+		}
+		if errSet == nil || !strings.Contains(errSet.Error(), "max number of expresssions parsed") {
+			r.Violate("threshold", "last-budget|set|"+s, map[string]interface{}{"input": s, "budgets": fmt.Sprintf("[0, %d]", m), "N": n}, fmt.Sprintf("[WithMaxExpressions(0), WithMaxExpressions(%d)] with N = %d should fail with the max-expressions error, got %v", m, n, errSet))
+		}
+	}
+}
+
+// C13: body selectors of three to seven parts that begin with the bound name (the parser leaves spare capacity behind
+// such paths), on a top-level collection, called repeatedly on one evaluator; the tree is compared before and after
+func c13LongAliasPaths(r *Run) {
+	leaf := func(v interface{}) interface{} {
+		return map[string]interface{}{"Meta": map[string]interface{}{"Env": v, "Tags": []interface{}{"x", "y"}, "D": map[string]interface{}{"E": map[string]interface{}{"F": map[string]interface{}{"G": v}}}}}
+	}
+	d1 := map[string]interface{}{"Items": []interface{}{leaf("prod")}, "M": map[string]interface{}{"k": leaf("prod")}}
+	d2 := map[string]interface{}{"Items": []interface{}{leaf("dev"), leaf("prod")}, "M": map[string]interface{}{"a": leaf("dev"), "b": leaf("prod")}}
+	for _, e := range []string{`any Items as it { it.Meta.Env == "prod" }`, `all Items as it { it.Meta.Env == "prod" }`, `any Items as it { "y" in it.Meta.Tags }`, `any Items as _, it { it.Meta.D.E.F.G == "prod" }`,
+		`any M as _, v { v.Meta.Env == "prod" }`, `any M as k, v { v.Meta.D.E == "prod" or v.Meta.D.E.F.G == "prod" }`, `any Items as it { it.Meta.D.E.F == 1 or it.Meta.Env == "prod" }`} {
+		ev, err := bexpr.CreateEvaluator(e)
+		if err != nil {
+			r.Count("long-alias:nocreate")
+			continue
+		}
+		tree0 := treeSnapshot(ev.VerifAST())
+		for k, datum := range []interface{}{d1, d1, d2, d1, d2, d2} {
+			got := evalObs(ev, datum)
+			fresh := exprObsOnce(e, datum)
+			r.Evaluations += 2
+			r.Seen(fmt.Sprintf("long-alias|%s|%d|%s", e, k, got))
+			if got != fresh {
+				r.Violate("history-dependent", "long-alias|"+e, map[string]interface{}{"expression": e, "datum": describe(datum), "call": k + 1}, fmt.Sprintf("call %d on a used evaluator: %s, on a fresh one: %s", k+1, got, fresh))
+				break
+			}
+		}
+		if treeSnapshot(ev.VerifAST()) != tree0 {
+			r.Violate("tree-modified", "long-alias|"+e, map[string]interface{}{"expression": e}, "the evaluator's syntax tree changed during Evaluate")
+		}
+	}
+}
+
+// C15: a blank of the language is any of space, tab, CR, LF wherever a blank may stand: replacing the spaces of an accepted
+// text that holds no quoted or raw literal by another blank keeps it accepted, with the same tree
+func c15BlankKinds(r *Run) {
+	texts := []string{"foo == 1", "foo == 1 and bar == 2", "foo == -1.5 or bar != 2", "not foo == 1", "( foo == 1 )", "any xs as x { x == 1 }", "all xs as i, x { x != 2 and i == 0 }", "1 in xs", "xs contains 2.5", "foo is empty", "foo is not empty",
+		"a.b.0 == 7 and ( c == 8 )", "foo not in bar", "foo matches bar", "foo == 1 or ( bar == 2 and baz == 3 )"}
+	tree := func(o string) string {
+		if !strings.HasPrefix(o, "A ") {
+			return o
+		}
+		parts := strings.SplitN(o, " ", 3)
+		if len(parts) < 3 {
+			return o
+		}
+		return "A " + parts[2]
+	}
+	for _, s := range texts {
+		want := tree(parseObs([]byte(s), 0))
+		if !strings.HasPrefix(want, "A ") {
+			r.Violate("blank-kind", "plain|"+s, map[string]string{"input": s}, "a text of the language written with single spaces is refused: "+want)
+			continue
+		}
+		for _, b := range []string{"\t", "\n", "\r", "\r\n", "  ", " \r", "\n\t "} {
+			for _, ends := range []bool{false, true} {
+				t := strings.ReplaceAll(s, " ", b)
+				if ends {
+					t = b + t + b
+				}
+				got := tree(parseObs([]byte(t), 0))
+				r.Evaluations++
+				r.Seen(fmt.Sprintf("blank-kinds|%s|%q|%v", s, b, ends))
+				if got != want {
+					r.Violate("blank-kind", fmt.Sprintf("%s|%q", s, b), map[string]string{"input": t, "input_hex": hx(t), "with_spaces": s}, "with single spaces: "+truncate(want, 160)+"; with this blank: "+truncate(got, 160))
+				}
+				if _, err := bexpr.CreateEvaluator(t); err != nil {
+					r.Violate("create-evaluator-verdict", fmt.Sprintf("blank-kinds|%s|%q", s, b), map[string]string{"input": t, "input_hex": hx(t)}, "CreateEvaluator refuses a text of the language: "+err.Error())
+				}
+			}
+		}
+	}
+}
+
+// C14: string-keyed maps of every static type (plain, named, with struct values holding interface fields), some entries
+// decisive and others failing: the outcome is the one the sorted key order gives, call after call
+type NIfaceMap map[string]interface{}
+type CheckT struct {
+	V interface{}
+	N int
+}
+
+func c14TypedMaps(r *Run, reps int) {
+	plain := map[string]interface{}{"m": map[string]interface{}{"a": map[string]interface{}{"V": 1}, "b": map[string]interface{}{"V": []int{1}}, "c": map[string]interface{}{"V": 1}}}
+	shapes := []struct {
+		name string
+		d    interface{}
+	}{
+		{"named-map", map[string]interface{}{"m": NIfaceMap{"a": map[string]interface{}{"V": 1}, "b": map[string]interface{}{"V": []int{1}}, "c": map[string]interface{}{"V": 1}}}},
+		{"struct-values", map[string]interface{}{"m": map[string]CheckT{"a": {V: 1}, "b": {V: []int{1}}, "c": {V: 1}}}},
+		{"ptr-struct-values", map[string]interface{}{"m": map[string]*CheckT{"a": {V: 1}, "b": {V: []int{1}}, "c": {V: 1}}}},
+		{"named-in-struct", struct{ m NIfaceMap }{}}, // unexported: never reached, an error whatever the order
+		{"in-struct", struct{ M map[string]CheckT }{M: map[string]CheckT{"a": {V: 1}, "b": {V: []int{1}}, "c": {V: 1}}}},
+	}
+	for _, e := range []string{"any m as _, c { c.V == 1 }", "all m as _, c { c.V != 1 }", "any m as k, c { k == c and c.V == 1 }", "all m as k, c { c.V == 1 or k == zz }"} {
+		want := exprObsOnce(e, plain)
+		for _, sh := range shapes {
+			ex := e
+			if sh.name == "in-struct" {
+				ex = strings.Replace(e, " m as", " M as", 1)
+			}
+			first := ""
+			for k := 0; k < reps; k++ {
+				got := exprObsOnce(ex, sh.d)
+				r.Evaluations++
+				if k == 0 {
+					first = got
+					r.Seen("typed-maps|" + sh.name + "|" + e + "|" + got)
+					if sh.name != "named-in-struct" && got != want {
+						r.Violate("order-dependent-evaluate", "typed-maps|"+sh.name+"|"+e, map[string]interface{}{"expression": ex, "datum": describe(sh.d)}, "this map gives "+got+"; a map[string]interface{} with the same entries gives "+want)
+						break
+					}
+				}
+				if got != first {
+					r.Violate("order-dependent-evaluate", "typed-maps|"+sh.name+"|"+e, map[string]interface{}{"expression": ex, "datum": describe(sh.d), "repetition": k + 1}, "the same call gave "+first+" and then "+got)
+					break
+				}
+			}
+		}
+	}
+}
+
+// C14: a value hook that calls back into the SAME evaluator on another datum while a quantifier of the outer call is under way:
+// the outer call still returns what it returns without the detour (nothing of a call lives in the evaluator)
+func c14ReentrantHook(r *Run) {
+	mk := func(keys map[string]interface{}) interface{} {
+		return map[string]interface{}{"svc": map[string]interface{}{"node": map[string]interface{}{"meta": keys, "list": []interface{}{keys}}}, "top": keys}
+	}
+	a := mk(map[string]interface{}{"a": 0, "b": 1, "c": map[string]interface{}{"x": 1}})
+	b := mk(map[string]interface{}{"zz": 5, "zy": 6, "zx": 7, "zw": 8})
+	for _, e := range []string{"any svc.node.meta as k, v { v == 1 }", "all svc.node.meta as _, v { v != 1 }", "any svc.node.list as i, v { v.b == 1 }", "any svc.node.meta as k { k == b }", "any top as _, v { v == 1 }", "any svc.node.meta as _, v { v.x == 1 or v == 1 }"} {
+		plainEv, err := bexpr.CreateEvaluator(e, bexpr.WithHookFn(func(v reflect.Value) reflect.Value { return v }))
+		if err != nil {
+			r.Count("reentrant:nocreate")
+			continue
+		}
+		want := evalObs(plainEv, a)
+		var ev *bexpr.Evaluator
+		depth, detours := 0, 0
+		hook := func(v reflect.Value) reflect.Value {
+			if depth == 0 && detours < 50 {
+				depth++
+				detours++
+				func() {
+					defer func() { recover() }()
+					ev.Evaluate(b)
+				}()
+				depth--
+			}
+			return v
+		}
+		ev, err = bexpr.CreateEvaluator(e, bexpr.WithHookFn(hook))
+		if err != nil {
+			continue
+		}
+		for k := 0; k < 3; k++ {
+			detours = 0
+			got := evalObs(ev, a)
+			r.Evaluations += 2
+			r.Seen(fmt.Sprintf("reentrant-hook|%s|%d|%s", e, k, got))
+			if got != want {
+				r.Violate("order-dependent-evaluate", "reentrant-hook|"+e, map[string]interface{}{"expression": e, "datum": describe(a), "datum_b": describe(b)}, fmt.Sprintf("Evaluate(A) gives %s; with a hook that evaluates B on the same evaluator in between (%d detours) it gives %s", want, detours, got))
+				break
+			}
+		}
+	}
+}
+
+// C16: `not not e` is `e`, and redundant parentheses change nothing - together: a negation inside parentheses under a negation
+func c16NotThroughParens(r *Run) {
+	tree := func(s string) string {
+		o := parseObs([]byte(s), 0)
+		if parts := strings.SplitN(o, " ", 3); strings.HasPrefix(o, "A ") && len(parts) == 3 {
+			return parts[2]
+		}
+		return o
+	}
+	for _, e := range []string{"foo == 1", "foo is empty", "1 in foo", "any xs as x { x == 1 }", "foo == 1 and bar == 2"} {
+		pe := e
+		if strings.Contains(e, " and ") || strings.HasPrefix(e, "any ") { // a conjunction or a quantifier is the operand of `not` only inside parentheses
+			pe = "(" + e + ")"
+		}
+		even := []string{"not not " + pe, "not (not " + pe + ")", "not ((not " + pe + "))", "not (not (" + e + "))", "not not not (not " + pe + ")", "not (not not (not " + pe + "))", "( not ( not " + pe + " ) )"}
+		odd := []string{"not " + pe, "not (not (not " + pe + "))", "not not (not " + pe + ")", "not (not not " + pe + ")", "(not (not (not (" + e + "))))"}
+		wantEven, wantOdd := tree(pe), tree("not "+pe)
+		for i, group := range [][]string{even, odd} {
+			want := []string{wantEven, wantOdd}[i]
+			for _, s := range group {
+				got := tree(s)
+				r.Evaluations++
+				r.Seen("not-through-parens|" + s)
+				if got != want {
+					r.Violate("tree-fidelity", "not-through-parens|"+s, map[string]interface{}{"input": s}, "parses to "+truncate(got, 200)+"; the same negations written side by side give "+truncate(want, 200))
+				}
+			}
+			for _, and := range []string{" and bar == 2", " or bar == 2"} {
+				s := group[1] + and
+				if got, want2 := tree(s), tree("("+[]string{pe, "not " + pe}[i]+")"+and); got != want2 {
+					r.Violate("tree-fidelity", "not-through-parens|"+s, map[string]interface{}{"input": s}, "parses to "+truncate(got, 200)+"; with the negations cancelled by hand "+truncate(want2, 200))
+				}
+			}
+		}
+	}
 }
